@@ -1,3 +1,3 @@
 #!/bin/sh
 # replays this counterexample against the real build
-cd /tmp/seedrepo_C18b && VERIF_SCRIPT=/verif/replays/C18/VHarnessSend_73cff2e8_0/script.json VERIF_RAW_SALT=0 GOFLAGS=-mod=mod GOPROXY=off go test -vet=off -count=1 -overlay /verif/replays/C18/VHarnessSend_73cff2e8_0/overlay.json -run ^TestVerifReplay_VHarnessSend$ -v ./wallet
+cd /tmp/seedrepo_C17c && VERIF_SCRIPT=/verif/replays/C18/VHarnessSend_73cff2e8_0/script.json VERIF_RAW_SALT=0 GOFLAGS=-mod=mod GOPROXY=off go test -vet=off -count=1 -overlay /verif/replays/C18/VHarnessSend_73cff2e8_0/overlay.json -run ^TestVerifReplay_VHarnessSend$ -v ./wallet
